@@ -208,12 +208,55 @@ func (fv *FuncVC) freshResult(st *State, reach string, rt types.Type, prefix str
 	return v
 }
 
+// keepProtected remembers the current versions of protected ghosts that are not in keys; the returned
+// function puts them back after a havoc of everything.
+func (fv *FuncVC) keepProtected(st *State, keys []string) func() {
+	inKeys := map[string]bool{}
+	for _, k := range keys {
+		inKeys[k] = true
+	}
+	type kv struct {
+		k HeapKey
+		t string
+	}
+	var saved []kv
+	for _, g := range fv.v.ghosts {
+		if !g.Protected {
+			continue
+		}
+		for _, hk := range fv.ghostKeys(g) {
+			if !inKeys[hk.Key] {
+				saved = append(saved, kv{hk, fv.m.heapGet(st, hk)})
+			}
+		}
+	}
+	for _, im := range fv.v.immutables {
+		var pkg *types.Package
+		if p, ok := fv.v.allPkgs[im.Pkg]; ok {
+			pkg = p.Types
+		}
+		for _, hk := range fv.readKeys(im.Spec, pkg) {
+			if !inKeys[hk.Key] {
+				saved = append(saved, kv{hk, fv.m.heapGet(st, hk)})
+			}
+		}
+		fv.assumed["immutable after construction: "+im.Spec] = true
+	}
+	return func() {
+		for _, s := range saved {
+			st.heap[s.k.Key] = s.t
+		}
+	}
+}
+
 func (fv *FuncVC) havocKeys(st *State, keys []string, all bool) {
 	if all {
+		restore := fv.keepProtected(st, keys)
 		fv.ctx.nfresh++
 		st.heap = map[string]string{}
 		st.epoch = 1000000 + fv.ctx.nfresh
 		st.touch()
+		restore()
 	} else {
 		for _, k := range keys {
 			fv.m.heapHavoc(st, HeapKey{Key: k, Sort: heapKeySorts[k]})
